@@ -108,6 +108,11 @@ Theorem C06_window_perm_calc : forall d name f sp operand rows' d1,
   exists d2, d_calc_analytic (mkD (d_ids d) (d_ms d) rows') name f sp operand = Ok d2 /\
              d_ids d2 = d_ids d1 /\ d_ms d2 = d_ms d1 /\ Permutation (d_rows d1) (d_rows d2).
 Proof. exact d_calc_analytic_perm. Qed.
+Theorem C06_window_perm_calc_error : forall d name f sp operand rows' c,
+  Permutation (d_rows d) rows' -> total_order d sp = true ->
+  d_calc_analytic d name f sp operand = Err c ->
+  exists c', d_calc_analytic (mkD (d_ids d) (d_ms d) rows') name f sp operand = Err c'.
+Proof. exact d_calc_analytic_perm_err. Qed.
 (* rank and ratio_to_report need no ordering hypothesis at all *)
 Theorem C06_rank_ratio_perm : forall d sp rows rows' g r,
   Permutation rows rows' ->
@@ -192,6 +197,7 @@ Print Assumptions C06_sort_unique.
 Print Assumptions C06_window_perm.
 Print Assumptions C06_window_perm_error.
 Print Assumptions C06_window_perm_calc.
+Print Assumptions C06_window_perm_calc_error.
 Print Assumptions C06_rank_ratio_perm.
 Print Assumptions C06_rank_spec.
 Print Assumptions C06_rank_position.
